@@ -14,7 +14,8 @@ for l in open(os.path.join(V, "properties.jsonl")):
 
 
 def wrap(s, indent=""):
-    return "\n".join(textwrap.wrap(" ".join(s.split()), 98, initial_indent=indent, subsequent_indent=indent))
+    sub = "  " if indent == "* " else indent
+    return "\n".join(textwrap.wrap(" ".join(s.split()), 98, initial_indent=indent, subsequent_indent=sub))
 
 
 def theorems(pid):
